@@ -307,7 +307,8 @@ Print Assumptions C14_tables_fit_the_reader.
    include or assignment counts only outside of conditional blocks); possible_env (the
    environments that can occur at that point: always-defined variables, variables assigned for
    sure, and -- only if a prefs file has been included for sure -- the variables bsd.prefs.mk
-   defines; everything else may be undefined). *)
+   defines; none of this for a variable that an .undef has touched since; everything else may be
+   undefined). *)
 
 (* every basename in LoadsPrefs' table (regenerated from util.go) is a reference file, and the
    directory it trusts is the reference directory: a widened table breaks this *)
@@ -323,13 +324,14 @@ Theorem C14_loads_prefs_within_reference : forall p,
 Proof. exact loads_prefs_sound. Qed.
 Print Assumptions C14_loads_prefs_within_reference.
 
-(* isDefined is right in the file: for ALL fragments (any lines before the condition) without
-   a prefs include inside a conditional block, ALL declarations that are right about bmake,
+(* isDefined is right in the file: for ALL fragments other than hacks.mk (any lines before the condition) without
+   a prefs include inside a conditional block and without an .undef of the variable, ALL declarations that are right about bmake,
    and ALL environments possible after those lines *)
 Theorem C14_is_defined_sound_in_file : forall decl mmn always by_prefs pre e v,
   decl_right decl always by_prefs ->
   conditional_prefs_include sure0 pre = false ->
   possible_env always by_prefs pre e ->
+  in_strs v (su_undef (sure_after pre)) = false ->
   let cx := file_ctx decl mmn (scan (init_state false) pre) in
   is_defined (cx_seen_prefs cx) (cx_var cx v) = true -> e v <> None.
 Proof. exact is_defined_sound_in_file. Qed.
@@ -346,12 +348,14 @@ Theorem C14_rewrite_sound_in_file : forall decl mmn always by_prefs pre,
     In rw (simplify_word cx v mods fe neg) ->
     (exists pat, last mods [] = 77 :: pat) ->
     possible_env always by_prefs pre e ->
+    in_strs v (su_undef (sure_after pre)) = false ->
     exists f t, rw_from_c rw = Some f /\ rw_to_c rw = Some t /\
       ((forall d s, eval_expr e v (map classify_mod (removelast mods)) = Some (d, s) -> wordlike s) ->
        preserves e f t)) /\
   (forall v mods fe neg rw e,
     In rw (fst (simplify_yesno cx v mods fe neg)) ->
     possible_env always by_prefs pre e ->
+    in_strs v (su_undef (sure_after pre)) = false ->
     exists f t, rw_from_c rw = Some f /\ rw_to_c rw = Some t /\
       ((vi_nonempty_if_defined (decl v) = true -> e v <> Some []) ->
        (forall d s, eval_expr e v (map classify_mod (removelast mods)) = Some (d, s) -> wordlike s) ->
@@ -359,6 +363,7 @@ Theorem C14_rewrite_sound_in_file : forall decl mmn always by_prefs pre,
   (forall v mods fe neg rw e,
     In rw (simplify_match cx v mods fe neg) ->
     possible_env always by_prefs pre e ->
+    in_strs v (su_undef (sure_after pre)) = false ->
     exists f t pat, rw_from_c rw = Some f /\ rw_to_c rw = Some t /\ last mods [] = 77 :: pat /\
       (forall d s, eval_expr e v (map classify_mod (removelast mods)) = Some (d, s) ->
          clean s ->
@@ -380,6 +385,23 @@ Print Assumptions C14_rewrite_sound_in_file.
 Theorem C14_rewrite_sound_in_file_refuted : ~ word_in_file_full.
 Proof. exact word_in_file_full_refuted. Qed.
 Print Assumptions C14_rewrite_sound_in_file_refuted.
+
+(* ... and without the guard "no .undef of the variable since" (a second genuine defect, known
+   finding C14/*/undefined/undef-after-assignment): V= x / .undef V / .if !empty(V:Malpha) ->
+   ${V} == alpha, V undefined: false -> malformed *)
+Theorem C14_rewrite_sound_in_file_refuted_undef : ~ word_in_file_undef_full.
+Proof. exact word_in_file_undef_full_refuted. Qed.
+Print Assumptions C14_rewrite_sound_in_file_refuted_undef.
+
+(* all hypotheses of the file-level theorems hold together, with isDefined = true *)
+Example C14_in_file_hypotheses_satisfiable :
+  decl_right ex_decl_one (fun _ => false) (fun n => str_eqb n ex_var) /\
+  conditional_prefs_include sure0 ex_sure_pre = false /\
+  possible_env (fun _ => false) (fun n => str_eqb n ex_var) ex_sure_pre (env1 ex_var (Some ex_alpha)) /\
+  in_strs ex_var (su_undef (sure_after ex_sure_pre)) = false /\
+  is_defined (cx_seen_prefs (file_ctx ex_decl_one ex_mmn (scan (init_state false) ex_sure_pre)))
+             (cx_var (file_ctx ex_decl_one ex_mmn (scan (init_state false) ex_sure_pre)) ex_var) = true.
+Proof. exact in_file_hypotheses_satisfiable. Qed.
 
 (* the hypotheses are satisfiable, the theorem is not vacuous: after an unconditional include of
    bsd.prefs.mk SeenPrefs is set, the spec agrees, ':U' is dropped and the value is kept *)
